@@ -575,9 +575,10 @@ class Var:
        packed: fields = list of (offset_bits, size_bits) at byte boundaries
        access: 'read' | 'write' | 'both'"""
 
-    def __init__(self, kind, slot, access="both", keys=None, value="word", fields=None, style="shl"):
+    def __init__(self, kind, slot, access="both", keys=None, value="word", fields=None, style="shl", srcs=None):
         self.kind, self.slot, self.access = kind, slot, access
         self.keys, self.value, self.fields, self.style = keys or [], value, fields or [], style
+        self.srcs = srcs or []       # packed: per field, where a written value comes from: "arg" | "caller" | "bool"
 
 
 def _arg(a, i):
@@ -653,7 +654,14 @@ def compile_branch(a, v, rng):
                     a.push(mask).op("AND").push(0x20 * fi).op("MSTORE")
                 else:
                     # sstore(slot, (sload(slot) & ~(mask << off)) | ((arg & mask) << off))
-                    _arg(a, fi)
+                    src = v.srcs[fi] if fi < len(v.srcs) else "arg"
+                    if src == "caller":
+                        a.op("CALLER")               # an address-typed source
+                    elif src == "bool":
+                        _arg(a, fi)
+                        a.op("ISZERO").op("ISZERO")  # a boolean source
+                    else:
+                        _arg(a, fi)
                     a.push(mask).op("AND")
                     if off:
                         if v.style == "shl":
@@ -689,12 +697,20 @@ def compile_layout(vs, rng, dispatcher="selector"):
 def random_vars(rng, n, slots=None):
     """n ground-truth variables at distinct slots"""
     pool = [0, 1, 2, 3, 4, 5, 6, 7, 8, 9, 10, 11, 17, 100, 255, 256, 1000, 2 ** 16, 2 ** 64 + 3, 2 ** 128 + 7,
-            2 ** 200 + 11, 2 ** 255 + 1]
+            2 ** 200 + 11, 2 ** 255 + 1,
+            # slot numbers whose 32 bytes read as left-aligned printable text ("A", "balances", "owner")
+            0x41 << 248, int.from_bytes(b"balances".ljust(32, b"\0"), "big"), int.from_bytes(b"owner".ljust(32, b"\0"), "big")]
     slots = slots or rng.sample(pool, n)
     out = []
     for s in slots:
-        k = rng.choice(["word", "address", "mapping", "mapping", "dynarray", "packed", "packed"])
+        k = rng.choice(["word", "address", "mapping", "mapping", "dynarray", "packed", "packed", "member"])
         access = rng.choice(["read", "write", "both"])
+        if k == "member":
+            # one typed member of a packed word, the only part of the word the code ever touches (owner / flag):
+            # written by read-modify-write from an address or boolean source
+            f, src = rng.choice([((0, 160), "caller"), ((96, 160), "caller"), ((0, 8), "bool"), ((160, 8), "bool"), ((0, 160), "arg")])
+            out.append(Var("packed", s, access, fields=[f], style=rng.choice(["shl", "mul"]), srcs=[src]))
+            continue
         if k == "mapping":
             d = rng.randrange(1, 5)
             out.append(Var("mapping", s, access, keys=[rng.choice(["word", "address"]) for _ in range(d)],
@@ -702,9 +718,17 @@ def random_vars(rng, n, slots=None):
         elif k == "packed":
             nf = rng.randrange(2, 7)
             cuts = sorted(rng.sample(range(1, 32), nf - 1))
+            if rng.random() < 0.3:          # an address-sized field at one end (the usual owner + flags word)
+                cuts = rng.choice([[20], [12], [20, 21], [11, 12]])
+                nf = len(cuts) + 1
             bounds = [0] + cuts + [32]
             fields = [(8 * bounds[i], 8 * (bounds[i + 1] - bounds[i])) for i in range(nf)]
-            out.append(Var("packed", s, access, fields=fields, style=rng.choice(["shl", "mul"])))
+            if rng.random() < 0.25:         # only some fields of the word are ever touched (read-modify-write of one member)
+                keep = sorted(rng.sample(range(nf), rng.randrange(1, nf)))
+                fields = [fields[i] for i in keep]
+            srcs = ["caller" if (sz == 160 and rng.random() < 0.6) else "bool" if (sz == 8 and rng.random() < 0.4) else "arg"
+                    for _, sz in fields]
+            out.append(Var("packed", s, access, fields=fields, style=rng.choice(["shl", "mul"]), srcs=srcs))
         else:
             out.append(Var(k, s, access))
     return out
@@ -741,7 +765,9 @@ def mask_shift_programs(rng, bw, n):
             elif kind == 1:    # sload & (mask << sh)
                 a.push(slot).op("SLOAD").push((mask << (sh % 300)) % 2 ** 256).op("AND").push(slot + 10).op("SSTORE")
             elif kind == 2:    # (sload & mask) * 2^k
-                a.push(slot).op("SLOAD").push(mask).op("AND").push(2 ** (sh % 256)).op("MUL").push(slot + 10).op("SSTORE")
+                # the multiplier is a power of two (shift-in idiom) or ANY constant: 2^k+-1, > 2^255, 2^256-1, 6, 10, ...
+                mul = 2 ** (sh % 256) if rng.random() < 0.6 else rng.choice(bw + [6, 10, 12, 100, 1000, 2 ** 255 + 1, 2 ** 256 - 1])
+                a.push(slot).op("SLOAD").push(mask).op("AND").push(mul).op("MUL").push(slot + 10).op("SSTORE")
             elif kind == 3:    # (sload & mask) << sh
                 a.push(slot).op("SLOAD").push(mask).op("AND").push(sh).op("SHL").push(slot + 10).op("SSTORE")
             elif kind == 4:    # or of two shifted fields (possibly overlapping / unordered)
@@ -752,7 +778,8 @@ def mask_shift_programs(rng, bw, n):
                 a.push(0).op("CALLDATALOAD").push(mask).op("AND").push(sh).op("SHL")
                 a.push(slot).op("SLOAD").push(rng.choice(bw)).op("AND").op("OR").push(slot).op("SSTORE")
             else:              # division style extraction
-                a.push(slot).op("SLOAD").push(2 ** (sh % 256)).raw([0x90]).op("DIV").push(mask).op("AND").push(slot + 10).op("SSTORE")
+                dv = 2 ** (sh % 256) if rng.random() < 0.6 else rng.choice(bw + [6, 10, 12, 100, 1000, 2 ** 255 + 1, 2 ** 256 - 1])
+                a.push(slot).op("SLOAD").push(dv).raw([0x90]).op("DIV").push(mask).op("AND").push(slot + 10).op("SSTORE")
         a.op("STOP")
         out.append(a.assemble())
     return out
